@@ -61,6 +61,30 @@ def gen_config_toggle(r, tier):
     return ops
 
 
+def gen_rival_run(r, tier):
+    """an analysed fan regulates for a dozen cycles while something else moves its PWM register after every write (every
+    cycle reads back a value the map does not predict), is stopped and started again: the stored characterisation is still
+    there and nothing is measured again (seed C15l: ten mismatches in a row made the running daemon delete the stored map as
+    "outdated")"""
+    ops = []
+    for _ in range(6 if tier == "quick" else 80):
+        p = r.below(2)
+        base = (f"kind=hwmon cfgmap=0 minmax={r.below(2)} hasrpm=1 ns={r.below(2)} quant={r.pick([0, 2, 8])} spinat={r.range(5, 90)} "
+                f"mapstyle=identity")
+        ops += [f"#case su rival parallel={p}", f"su.open parallel={p} yield_us=0",
+                f"su.fan fan=f1 {base}", "su.start fan=f1", "su.data fan=f1",
+                f"su.fan fan=f1 {base} cycles={r.range(11, 16)} rival=1", "su.start fan=f1", "su.data fan=f1",
+                f"su.fan fan=f1 {base}", "su.start fan=f1", "su.data fan=f1"]
+    return ops
+
+
+def rival_contract(op, go_line, lean_line):
+    """the device registers after a run with a rival writer are the rival's business; everything stored must agree"""
+    import re
+    strip = lambda l: re.sub(r" reg=\S+", "", l)
+    return op.startswith("su.data") and strip(go_line) == strip(lean_line)
+
+
 def gen_cancelled_start(r, tier):
     """an analysed fan is started again and the start is cancelled (SIGTERM, a failing peer) a few milliseconds in - during
     the start-up wait, the look-ups, or the first cycles; the start after that must find everything stored as it was
@@ -93,7 +117,7 @@ class C15(Prop):
     assumptions = ["the bodies of `fan2go fan reset` / `fan init` are re-stated in the harness; their call sequences are regenerated facts (fact_cli_bodies)",
                    "database operations succeed (C14's subject)"]
     streams = [Stream("startup", gen_su, parallel=8), Stream("startup-data", gen_su_data, parallel=8),
-               Stream("config-toggle", gen_config_toggle, parallel=8),
+               Stream("config-toggle", gen_config_toggle, parallel=8), Stream("rival-run", gen_rival_run, parallel=8, exact=False, contract=rival_contract),
                Stream("cancelled-start", gen_cancelled_start, parallel=8, exact=False, contract=lambda op, a, b: True),
                # oracle-only (real goroutines, real bbolt file locks): restarts of several fans at once
                Stream("restart-together", gen_restart_together, parallel=2, exact=False, contract=lambda op, a, b: True, timeout=1800)]
@@ -119,6 +143,25 @@ class C15(Prop):
                     if not ok:
                         break
                     started = True
+            return out
+        if name == "rival-run":
+            import re
+            strip = lambda l: re.sub(r" reg=\S+", "", l)
+            for cops, cgo in cases(ops, go):
+                starts = [i for i, o in enumerate(cops) if o.startswith("su.start")]
+                datas = [i for i, o in enumerate(cops) if o.startswith("su.data")]
+                if len(starts) != 3 or len(datas) != 3 or kv(cgo[starts[0]]).get("res") != "ok":
+                    continue
+                for k in (1, 2):
+                    st = kv(cgo[starts[k]])
+                    if st.get("sweep") == "1" or st.get("measure") == "1" or st.get("res") != "ok":
+                        out.append(viol("a fan that had been analysed was analysed again after a run in which something else kept moving its PWM "
+                                        "register (nobody discarded its stored data)", cops, cgo, upto=starts[k]))
+                        break
+                    if strip(cgo[datas[k]]) != strip(cgo[datas[0]]):
+                        out.append(viol("the stored PWM map / RPM curve of an analysed fan changed during a run in which something else kept moving "
+                                        "its PWM register", cops, cgo, upto=datas[k]))
+                        break
             return out
         if name == "config-toggle":
             for cops, cgo in cases(ops, go):
